@@ -96,6 +96,34 @@ def finish(prop, tier, seed, units, results, wall, verbose=False, partial=False,
     violations = []
     undecided = []
     known_seen = []
+    # The automatic clause of two-call histories ("same outcome as on a fresh state") is decided by the REAL code: the engine keys
+    # kernel summaries by argument term, so it cannot always prove the equality for a harmless (correctly keyed) memo.  A failing
+    # instance is a violation only if the history, replayed on the real code, shows the dependence; otherwise it is dropped (listed
+    # in the evidence), never an alarm.
+    history_oracle_dropped = []
+    for rec in all_recs:
+        if rec['verdict'] == 'proved' or not rec['clause'].startswith(('history/outcome-equals', 'history/no-exception-where')):
+            continue
+        ok = False
+        for ce in (rec.get('counterexample'), rec.get('history_candidate')):
+            if ce and ce.get('history'):
+                rp = RP.replay_record(rec.get('function'), ce, None, rec.get('clause'))
+                if rp['status'] == 'confirmed':
+                    rec['counterexample'] = ce
+                    rec['verdict'] = 'refuted'
+                    rec.pop('candidate', None)
+                    rec['replay_info'] = None
+                    ok = True
+                    break
+        if not ok:
+            history_oracle_dropped.append(rec['name'])
+            rec['verdict'] = 'dropped'
+    all_recs = [r for r in all_recs if r['verdict'] != 'dropped']
+    proof_recs = [r for r in all_recs if r['mode'] == 'unbounded']
+    bounded_recs = [r for r in all_recs if r['mode'] == 'bounded']
+    if history_oracle_dropped:
+        print('note: %d automatic history clauses without a verdict were run on the real code and showed no dependence on the earlier call (not counted)'
+              % len(history_oracle_dropped))
     # refuted obligations
     for rec in all_recs:
         if rec['verdict'] != 'refuted':
@@ -145,6 +173,13 @@ def finish(prop, tier, seed, units, results, wall, verbose=False, partial=False,
             rp = dict(status='not-replayable', detail='candidate model only (quantifier-free part of the hypotheses)')
         else:
             rp = RP.replay_record(rec.get('function'), rec.get('counterexample'), rec.get('replay_info'), rec.get('clause'))
+        if rp['status'] != 'confirmed' and rec.get('history_candidate'):
+            # two-call history: the solver's model may be degenerate (all-zero record); a model of the path condition in general
+            # position is a second candidate history for the real code
+            rp2 = RP.replay_record(rec.get('function'), rec['history_candidate'], None, rec.get('clause'))
+            if rp2['status'] == 'confirmed':
+                rp = rp2
+                rec['counterexample'] = rec['history_candidate']
         if rec.get('candidate') and rp['status'] != 'confirmed':
             # a candidate model (quantifier-free part only) that does not replay is not a refutation: undecided
             # (unless a sound refutation of the same clause exists, e.g. from the bounded mode)
@@ -165,6 +200,27 @@ def finish(prop, tier, seed, units, results, wall, verbose=False, partial=False,
     still_undecided = []
     for rec in undecided:
         ck = clause_key(rec)
+        hc = rec.get('history_candidate')
+        if hc and hc.get('history') and (ck not in reported_ck):
+            # a two-call history the solver could not decide: run the candidate history on the real code
+            rp = RP.replay_record(rec.get('function'), hc, None, rec.get('clause'))
+            if rp['status'] == 'confirmed':
+                reported_ck.add(ck)
+                path = os.path.join('replays', prop, safe_name(rec['name']) + '.json')
+                json.dump({'property': prop, 'obligation': rec['name'], 'function': rec.get('function'), 'mode': rec['mode'], 'clause': rec['clause'],
+                           'kind': 'failed-obligation', 'counterexample': hc, 'replay': rp,
+                           'solver_output': {'verdict': rec['verdict'], 'backend': rec['backend'], 'reason': rec['reason'], 'time_s': rec['time_s']},
+                           'note': 'no solver verdict on this obligation of a two-call history; the candidate history (a model of the hypotheses) '
+                                   'was run on the real code, where the outcome of the call depends on the earlier call'},
+                          open(os.path.join(HERE, path), 'w'), indent=1, default=str)
+                lines.append('VIOLATION property=%s replay=%s' % (prop, path))
+                lines.append('  obligation %s not dischargeable (%s); replay of the candidate history on the real code: %s'
+                             % (rec['name'], rec['reason'] or rec['verdict'], rp.get('detail', rp['status'])))
+                violations.append(rec)
+                exit_code = 1
+                continue
+        if ck in reported_ck and hc:
+            continue
         if ck in baseline and rec.get('same_vc_as_baseline'):
             # the IDENTICAL formula was discharged on the unchanged tree: the code did not change this obligation, the solver just
             # gave no verdict this time (load / seed) -- undecided, never a violation
